@@ -73,9 +73,17 @@ class Repo:
                 self._index(mi)
                 self.modules[mod] = mi
         self.inlined = []
+        self.expand_failed = []
         if expand:
             from .expand import expand_repo
             self.inlined = expand_repo(self)
+
+    def transparent_helpers(self) -> set:
+        """Unknown (post-freeze) helper functions every call of which was expanded into its caller: their own bodies carry no
+        additional behaviour and are skipped by rules that scan all functions."""
+        ok = {c for _, c, _ in getattr(self, "inlined", [])}
+        bad = {c for _, c in getattr(self, "expand_failed", [])}
+        return ok - bad
 
     # ------------------------------------------------------------------
     def digest(self) -> str:
